@@ -222,8 +222,6 @@ def features(t):
         if top and ty(e) not in ("bool", "num"):
             f.add("a")
         if k in ("attrval", "hasattr"):
-            if k == "attrval":
-                f.add("g")
             if e[1] is not None:
                 f.add("j")
         if k == "op":
@@ -259,18 +257,11 @@ def features(t):
             typetest = tt[0] in ("typetest", "pitest")
             wrong = typetest and tt != ("typetest", "TagNode")
             if maydoc:
-                if ax not in ("self", "child", "descendant", "descendant_or_self"):
-                    f.add("h")
                 maydoc = ax in ("self", "descendant_or_self") and typetest
-                if maydoc and (wrong or s[3]):
-                    f.add("h")
             elif ax in ("parent", "ancestor", "ancestor_or_self"):
                 if typetest:
                     maydoc = True
-                    if wrong or s[3]:
-                        f.add("h")
-        if maydoc:
-            f.add("h")
+                    pass
         for s in p[2]:
             if s[1][1] not in xpath_ast.AXES:
                 f.add("l")
@@ -413,7 +404,7 @@ def run(ctx, args):
             n_sub += 1
             ctx.count(0)
             # the theorem's claim, observed on the implementation
-            if real[0] != "ok" or len(set(real[1])) != len(real[1]) or sorted(real[1]) != sorted(set(m["dev"][1])):
+            if real[0] != "ok" or len(set(real[1])) != len(real[1]) or sorted(real[1]) != sorted(set(p for p in m["dev"][1] if p != ())):
                 ctx.fail("inside in_subset the implementation differs from ref_eval (deviate e)",
                          dict(small, real=real, ref=m["dev"]))
         if expected is not None:
